@@ -120,6 +120,28 @@ def cases(ctx):
                         out.append({"kind": f"shadow-width:{o}:{c}:{ref}", "rom": rom, "spec": {"t": "twin", "labels": True},
                                     "src": f"*={org:#08x}\n" + outer[o] + wrap[c] % inner("fwd-label", ref, "x") + tail,
                                     "twin_src": f"*={org:#08x}\n" + outer[o] + wrap[c] % inner("fwd-label", wide, "x") + tail})
+        # a loop counter / a named scope that reuses a name of the surroundings: renaming the inner one changes nothing
+        for outer_def in ("i := 0x20\n", "i = 0x20\n", "i:\n", ""):
+            for use in (".db i & 0xFF\n", "lda.w #i\n", ".dl i\n"):
+                def loop(v):
+                    return (f"*={org:#08x}\n{outer_def}{use}.for {v} := 0, 3 {{\n.db {v}\nlda.b #{v}\n}}\n{use}"
+                            f".macro zz_m({v}) {{\n.for {v} := 1, 3 {{\n.db {v}\n}}\n.db {v}\n}}\nzz_m(9)\n")
+                if outer_def:
+                    out.append({"kind": "counter-vs-outer", "rom": rom, "spec": {"t": "twin", "labels": False},
+                                "src": loop("i"), "twin_src": loop("i").replace(".for i :=", ".for zz_c :=").replace(".db i\nlda.b #i", ".db zz_c\nlda.b #zz_c").replace("{\n.db i\n}\n.db i", "{\n.db zz_c\n}\n.db i")})
+        for wrap_a, wrap_b in (("{\n%s}\n", "{\n%s}\n"), (".macro zz_sm() {\n%s}\nzz_sm()\n", "zz_sm()\n"),
+                               ("{\n%s}\n", ".scope other {\n%s}\n")):
+            def two(n1, n2):
+                a = f".scope {n1} {{\nnop\nfirst:\n.db 1\n}}\n.dl {n1}.first\n"
+                b = f".scope {n2} {{\nnop\nnop\nfirst:\n.db 2\n}}\n.dl {n2}.first\n"
+                return f"*={org:#08x}\n" + wrap_a % a + (wrap_b % b if "%s" in wrap_b else wrap_b)
+            if "%s" in wrap_b:
+                out.append({"kind": "same-scope-name-in-siblings", "rom": rom, "spec": {"t": "twin", "labels": False},
+                            "src": two("item", "item"), "twin_src": two("item", "zz_item2")})
+        # a macro whose body declares a named scope, applied twice: each application has its own
+        out.append({"kind": "scope-in-macro-twice", "rom": rom, "spec": {"t": "twin", "labels": False},
+                    "src": f"*={org:#08x}\n.macro zz_sm(v) {{\n.scope item {{\nfirst:\n.db v\n}}\n.dl item.first\n}}\nzz_sm(1)\nnop\nzz_sm(2)\n",
+                    "twin_src": f"*={org:#08x}\n{{\n.scope item {{\nfirst:\n.db 1\n}}\n.dl item.first\n}}\nnop\n{{\n.scope item2 {{\nfirst:\n.db 2\n}}\n.dl item2.first\n}}\n"})
         # export: scope.name equals the label, referenced before and after the scope
         for before in (True, False):
             for inner in ("lab:\nnop\n", "nop\nnop\nlab:\nrts\n", ".db 1,2,3\nlab:\n"):
